@@ -480,12 +480,39 @@ fn random_action(f: &Family, backend: Backend, en: &Enabled, rng: &mut Rng) -> O
 
 /// One random run of family `f`.
 pub fn random_run(f: &Family, backend: Backend, forced_owned: Option<bool>, seed: u64, run: u64) -> RunOut {
+    random_run_fork(f, backend, forced_owned, seed, run, None)
+}
+
+/// Like [random_run], but with `fork = Some((n_labels, i))` the walk follows run `run` until it has
+/// produced `n_labels` labels and then continues with a different random stream (fork number `i`),
+/// for `2 * max_steps` further steps: a search for a failing input that starts at the point where a
+/// recorded trace began to differ from the model.
+pub fn random_run_fork(
+    f: &Family,
+    backend: Backend,
+    forced_owned: Option<bool>,
+    seed: u64,
+    run: u64,
+    fork: Option<(usize, u64)>,
+) -> RunOut {
     let mut rng = Rng::new(seed, run);
     let owned = forced_owned.unwrap_or_else(|| rng.pct(f.p_owned));
-    let id = format!("{}-{}-{}-{}", f.name, backend.name(), seed, run);
+    let id = match fork {
+        None => format!("{}-{}-{}-{}", f.name, backend.name(), seed, run),
+        Some((n, i)) => format!("{}-{}-{}-{}f{}x{}", f.name, backend.name(), seed, run, n, i),
+    };
     let (mut rec, header) = Recorder::new(&id, backend, owned, &format!("family={} seed={} run={}", f.name, seed, run));
     let mut steps = 0;
-    'walk: while steps < f.max_steps && !rec.stop {
+    let mut forked = false;
+    let mut max_steps = f.max_steps;
+    'walk: while steps < max_steps && !rec.stop {
+        if let Some((n, i)) = fork {
+            if !forked && rec.labels.len() >= n {
+                forked = true;
+                rng = Rng::new(seed ^ 0x9e3779b97f4a7c15u64.wrapping_mul(i + 1), run.wrapping_add(1_000_003 * (i + 1)));
+                max_steps = steps + 2 * f.max_steps;
+            }
+        }
         let en = rec.ex.enabled();
         let Some(actions) = random_action(f, backend, &en, &mut rng) else { break };
         for a in actions {
@@ -931,6 +958,8 @@ pub struct ExploreOpts {
     pub replay_dir: String,
     /// At most this many replay files per monitor id.
     pub max_replays: usize,
+    /// `Some((run, n_labels))`: fork search, see [random_run_fork]; `count` = number of forks.
+    pub fork: Option<(u64, usize)>,
 }
 
 #[derive(Default)]
@@ -1072,6 +1101,7 @@ pub fn explore(opts: ExploreOpts) -> Result<String, String> {
     let backend = opts.backend;
     let owned = opts.owned;
     let seed = opts.seed;
+    let fork = opts.fork;
 
     if let Some(f) = family(&opts.family) {
         if backend == Backend::P && f.name != "pool" && f.name != "nolimit" {
@@ -1087,7 +1117,15 @@ pub fn explore(opts: ExploreOpts) -> Result<String, String> {
             move |i| {
                 let lo = i as u64 * CHUNK;
                 let hi = (lo + CHUNK).min(count);
-                ((lo..hi).map(|run| random_run(&f2, backend, owned, seed, run)).collect(), ChunkInfo::default())
+                (
+                    (lo..hi)
+                        .map(|run| match fork {
+                            None => random_run(&f2, backend, owned, seed, run),
+                            Some((frun, n)) => random_run_fork(&f2, backend, owned, seed, frun, Some((n, run))),
+                        })
+                        .collect(),
+                    ChunkInfo::default(),
+                )
             },
             |runs, _| {
                 for r in runs {
